@@ -24,7 +24,7 @@ Local Open Scope Z_scope.
 
 Definition EXN_UNMODELLED : N := 97%N.   (* outside the modelled fragment *)
 Definition EXN_INTERNAL : N := 96%N.     (* model-internal: a call returned the wrong kind (never happens) *)
-Definition EXN_SIGSEGV : N := 211%N.     (* undefined behaviour observed as SIGSEGV (printed CRASH:11) *)
+Definition EXN_SIGSEGV : N := 211%N.     (* undefined behaviour observed as SIGSEGV (printed CRASH:11); unused since the fix of dict_add_term_new *)
 
 Definition adict := list (expr * number).
 Definition mdict := list (expr * expr).
@@ -343,16 +343,19 @@ Section Step.
                       match t with
                       | ENum tn =>
                           if negb (num_is_exact n) || negb (num_is_exact tn) then
-                            (* the code uses *exp here (not it->second) and keeps the entry *)
-                            match exp with
-                            | ENum en => do c <- coef_times_pow coef tn en; Ok (c, d1)
-                            | _ => ErrExn EXN_SIGSEGV
-                            end
+                            (* t ** (summed exponent) is folded into the coefficient, the entry dropped *)
+                            do c <- coef_times_pow coef tn n; Ok (c, dE)
                           else Ok (coef, d1)
                       | _ => Ok (coef, d1)
                       end
                 end
           | _ => Ok (coef, d1)
+          end in
+        (* a Pow key whose exponents sum to a non-zero Integer n:  (b**e)**n = b**(e*n) *)
+        let pow_key (_ : unit) : res (number * mdict) :=
+          match k with
+          | EPow kb ke => do e' <- rE (CMul ke newv); rS (CDatn coef dE e' kb)
+          | _ => tail tt
           end in
         match newv with
         | ENum (NInt z) =>
@@ -361,8 +364,8 @@ Section Step.
                 if num_is_exact tn then
                   (if negb (z =? 0) then do c <- coef_times_pow coef tn (NInt z); Ok (c, dE)
                    else Ok (coef, dE))
-                else if z =? 0 then Ok (coef, dE) else tail tt
-            | _ => if z =? 0 then Ok (coef, dE) else tail tt
+                else if z =? 0 then Ok (coef, dE) else pow_key tt
+            | _ => if z =? 0 then Ok (coef, dE) else pow_key tt
             end
         | ENum (NRat rn rd) =>
             match t with
